@@ -34,6 +34,9 @@ type C15File struct {
 	Inst int `json:"inst"` // instance index
 	Hour int `json:"hour"` // age rank (larger = newer)
 	Junk int `json:"junk,omitempty"`
+	// Ns: offset below one second (snapshots of one instance taken within the same second differ only in
+	// the nanosecond field of their names)
+	Ns int `json:"ns,omitempty"`
 }
 
 type C15Listing struct {
@@ -46,7 +49,7 @@ var c15Insts = []string{"a", "b", "host-1"}
 
 func c15Name(c C15Listing, f C15File, base time.Time) string {
 	inst := c15Insts[f.Inst%len(c15Insts)]
-	ts := base.Add(time.Duration(f.Hour) * time.Hour)
+	ts := base.Add(time.Duration(f.Hour)*time.Hour + time.Duration(f.Ns))
 	if f.DB < 0 {
 		switch f.Junk % 6 {
 		case 0:
@@ -174,6 +177,19 @@ func checkC15Listing(c C15Listing, o *vcore.Obs) error {
 		return fmt.Errorf("cleaner of database %q deleted %q, which is %s", c.DB, n, what)
 	}
 	o.NonTrivial(sharesPrefix && len(newestOwn) > 0)
+	sameSec := map[string]int{}
+	for n, f := range all {
+		if f.DB == 0 {
+			sameSec[fmt.Sprintf("%d/%d", f.Inst%len(c15Insts), f.Hour)]++
+			_ = n
+		}
+	}
+	for _, k := range sameSec {
+		if k > 1 {
+			o.Class("snapshots-of-one-instance-within-the-same-second")
+			break
+		}
+	}
 	o.ClassIf(sharesPrefix, "other-db-shares-prefix")
 	o.ClassIf(len(all) > len(newestOwn), "files-besides-newest")
 	return nil
@@ -205,6 +221,11 @@ func genC15Listing(t *rapid.T) C15Listing {
 	n := rapid.IntRange(1, 12).Draw(t, "nfiles")
 	for i := 0; i < n; i++ {
 		f := C15File{Inst: rapid.IntRange(0, 2).Draw(t, "inst"), Hour: rapid.IntRange(0, 40).Draw(t, "hour")}
+		if rapid.IntRange(0, 2).Draw(t, "subsec") == 0 {
+			// a few fixed hours and offsets, so that several snapshots of an instance fall into one second
+			f.Hour = rapid.SampledFrom([]int{40, 40, 7}).Draw(t, "same_hour")
+			f.Ns = rapid.SampledFrom([]int{0, 1, 2, 10, 500_000_000, 999_999_999}).Draw(t, "ns")
+		}
 		switch rapid.IntRange(0, 5).Draw(t, "fkind") {
 		case 0, 1, 2:
 			f.DB = 0
@@ -221,7 +242,7 @@ func genC15Listing(t *rapid.T) C15Listing {
 
 func TestC15Listing(t *testing.T) {
 	vcore.Run(t, vcore.Config{Property: "C15",
-		Rule: "rapid: one bucket with snapshots of this database (1-3 instances, several ages), of 1-2 other databases whose names extend / are a prefix of / are unrelated to this one (same instance names, older and newer timestamps) and junk names starting with this database's name; the real receiver must deliver exactly the newest snapshot of each instance of THIS database and the real cleaner (three runs) must delete exactly the superseded snapshots of this database; " +
+		Rule: "rapid: one bucket with snapshots of this database (1-3 instances, several ages, a third of the files within the same second as another one, differing only in the nanosecond field), of 1-2 other databases whose names extend / are a prefix of / are unrelated to this one (same instance names, older and newer timestamps) and junk names starting with this database's name; the real receiver must deliver exactly the newest snapshot of each instance of THIS database and the real cleaner (three runs) must delete exactly the superseded snapshots of this database; " +
 			"non-trivial = another database's name shares a prefix with this one and this database has snapshots"},
 		genC15Listing, checkC15Listing)
 }
